@@ -69,13 +69,21 @@ structure Stats where
   outOfRange : Nat := 0
   specSkipped : Nat := 0     -- cases whose controls left the statement's domain (modes 3/4)
   postRejected : Nat := 0
+  resetCycleDivergences : Nat := 0  -- mode 7: cases in which a write issued under reset is dropped by the post-processed design
   hazardCases : Nat := 0     -- post-processed with latency >= 1 and a write depending on a read (bypass logic generated)
   hist : List (String × Nat) := []
+  printed : List (String × Nat) := []   -- messages printed per kind (only the first few of each kind are printed)
 
 def bump (h : List (String × Nat)) (k : String) : List (String × Nat) :=
   match h with
   | [] => [(k, 1)]
   | (k', n) :: t => if k' == k then (k', n + 1) :: t else (k', n) :: bump t k
+
+/-- print at most `maxPerKey` messages per key (the runner extracts the case of every printed PROPFAIL from the stream file) -/
+def say (s : Stats) (key msg : String) : IO Stats := do
+  let n := ((s.printed.find? (·.1 == key)).map (·.2)).getD 0
+  if n < 3 then IO.println msg
+  return { s with printed := bump s.printed key }
 
 def kvOf (toks : List String) (key : String) : String :=
   match toks.find? (fun t => t.startsWith (key ++ "=")) with
@@ -165,7 +173,7 @@ partial def loop (h : IO.FS.Stream) (c : Case) (s : Stats) : IO Stats := do
         -- the device does not offer the requested size category (setType throws while the design is built)
         loop h c { s with hist := bump s.hist "device-lacks-type" }
       else
-        IO.println s!"DIFF case={c.id} what=pre-exception reason={why}"
+        let s ← say s "pre-exception" s!"DIFF case={c.id} what=pre-exception reason={why}"
         loop h c { s with diffs := s.diffs + 1 }
     else loop h c s
   | "net" :: rest =>
@@ -184,15 +192,15 @@ partial def loop (h : IO.FS.Stream) (c : Case) (s : Stats) : IO Stats := do
     let mut c := c
     if r != "ok" then s := { s with postRejected := s.postRejected + 1, hist := bump s.hist s!"rejected:{why}" }
     if c.preOk && r == "ok" && expectReject && c.dev == "0" then
-      IO.println s!"DIFF case={c.id} what=guard model_rejects=true impl_rejects=false type={c.type} L={c.lat}"
+      s ← say s "guard" s!"DIFF case={c.id} what=guard model_rejects=true impl_rejects=false type={c.type} L={c.lat}"
       s := { s with diffs := s.diffs + 1 }
     if c.preOk && r != "ok" && !expectReject then
       -- a configuration inside the statement's domain that post-processing refuses: the property fails for it
-      IO.println s!"PROPFAIL case={c.id} what=post-rejected reason={why} L={c.lat} type={c.type} dev={c.dev} reads={(c.ports.toList.filter (!·.isWrite)).length} writes={(c.ports.toList.filter (·.isWrite)).length}"
+      s ← say s s!"post-rejected:{why}:{c.dev}" s!"PROPFAIL case={c.id} what=post-rejected reason={why} L={c.lat} type={c.type} dev={c.dev} reads={(c.ports.toList.filter (!·.isWrite)).length} writes={(c.ports.toList.filter (·.isWrite)).length}"
       c := { c with failed := true }
       s := { s with propfails := s.propfails + 1 }
-    if c.postOk && c.idle < c.resetCycles then
-      IO.println s!"DIFF case={c.id} what=harness-idle-shorter-than-reset idle={c.idle} reset={c.resetCycles}"
+    if c.postOk && c.idle < c.resetCycles && c.mode != 7 then
+      s ← say s "idle" s!"DIFF case={c.id} what=harness-idle-shorter-than-reset idle={c.idle} reset={c.resetCycles}"
       s := { s with diffs := s.diffs + 1 }
     if c.postOk && c.lat ≥ 1 && c.ports.toList.any (·.rmw) then s := { s with hazardCases := s.hazardCases + 1 }
     loop h c s
@@ -204,7 +212,7 @@ partial def loop (h : IO.FS.Stream) (c : Case) (s : Stats) : IO Stats := do
       let ops := wordOps c.width
       match parsePorts c.ports.toList pin with
       | none =>
-        IO.println s!"DIFF case={c.id} cycle={t} what=unparsed"
+        let s ← say s "unparsed" s!"DIFF case={c.id} cycle={t} what=unparsed"
         loop h { c with diffed := true } { s with diffs := s.diffs + 1 }
       | some ports =>
         let mut c := c
@@ -213,7 +221,7 @@ partial def loop (h : IO.FS.Stream) (c : Case) (s : Stats) : IO Stats := do
         let r := cycle ops cfg c.mem ports
         s := { s with asyncCmp := s.asyncCmp + asyncR.length, ops := s.ops + asyncR.length }
         if r.2 != asyncR && !c.diffed then
-          IO.println s!"DIFF case={c.id} cycle={t} what=async-read model={r.2} impl={asyncR} inputs={pin}"
+          s ← say s "async" s!"DIFF case={c.id} cycle={t} what=async-read model={r.2} impl={asyncR} inputs={pin}"
           c := { c with diffed := true }
           s := { s with diffs := s.diffs + 1 }
         c := { c with mem := r.1 }
@@ -230,7 +238,7 @@ partial def loop (h : IO.FS.Stream) (c : Case) (s : Stats) : IO Stats := do
             s := { s with specSkipped := s.specSkipped + 1 }
             if c.mode != 3 && c.mode != 4 && !c.failed then
               -- the main streams never leave the statement's domain; if they do the harness is broken
-              IO.println s!"DIFF case={c.id} cycle={t} what=controls-outside-domain inputs={pin}"
+              s ← say s "domain" s!"DIFF case={c.id} cycle={t} what=controls-outside-domain inputs={pin}"
               s := { s with diffs := s.diffs + 1 }
           c := { c with specOk := false }
           s := { s with undefInputs := s.undefInputs + (ports.filter fun p => match p with
@@ -242,22 +250,26 @@ partial def loop (h : IO.FS.Stream) (c : Case) (s : Stats) : IO Stats := do
           let expect := List.zipWith xorW (c.reads[t - c.lat]!) xors
           s := { s with preCmp := s.preCmp + expect.length, ops := s.ops + expect.length }
           if !cmpPins expect prePins && !c.failed then
-            IO.println s!"PROPFAIL case={c.id} cycle={t} what=pre L={c.lat} type={c.type} arrmem={expect} pins={prePins}"
+            s ← say s "pre" s!"PROPFAIL case={c.id} cycle={t} what=pre L={c.lat} type={c.type} arrmem={expect} pins={prePins}"
             c := { c with failed := true }
             s := { s with propfails := s.propfails + 1 }
           if c.postOk && t - c.lat ≥ c.resetCycles then
             s := { s with postCmp := s.postCmp + expect.length, ops := s.ops + expect.length }
+            if !cmpPins expect postPins && !c.failed && c.mode == 7 then
+              s ← say s "obs" s!"OBS case={c.id} cycle={t} what=write-under-reset-dropped L={c.lat} arrmem={expect} pins={postPins}"
+              c := { c with failed := true }
+              s := { s with resetCycleDivergences := s.resetCycleDivergences + 1 }
             if !cmpPins expect postPins && !c.failed then
-              IO.println s!"PROPFAIL case={c.id} cycle={t} what=post L={c.lat} type={c.type} dev={c.dev} memreset={c.memreset} arrmem={expect} pins={postPins} pre_pins={prePins}"
+              s ← say s s!"post:{c.dev}:{c.memreset}" s!"PROPFAIL case={c.id} cycle={t} what=post L={c.lat} type={c.type} dev={c.dev} memreset={c.memreset} arrmem={expect} pins={postPins} pre_pins={prePins}"
               c := { c with failed := true }
               s := { s with propfails := s.propfails + 1 }
         loop h c s
     | _ =>
-      IO.println s!"DIFF case={c.id} cycle={t} what=malformed-line"
+      let s ← say s "malformed" s!"DIFF case={c.id} cycle={t} what=malformed-line"
       loop h c { s with diffs := s.diffs + 1 }
   | _ => loop h c s
 
 def main : IO Unit := do
   let s ← loop (← IO.getStdin) {} {}
   let hist := ",".intercalate (s.hist.map fun (k, n) => s!"\"{k}\":{n}")
-  IO.println s!"SUMMARY \{\"cases\":{s.cases},\"cycles\":{s.cycles},\"ops\":{s.ops},\"diffs\":{s.diffs},\"propfails\":{s.propfails},\"async_compared\":{s.asyncCmp},\"pre_pins_compared\":{s.preCmp},\"post_pins_compared\":{s.postCmp},\"read_after_write_collisions\":{s.rawCollisions},\"write_write_collisions\":{s.wwCollisions},\"undefined_port_inputs\":{s.undefInputs},\"out_of_range_accesses\":{s.outOfRange},\"spec_skipped_cases\":{s.specSkipped},\"post_rejected\":{s.postRejected},\"hazard_cases\":{s.hazardCases},\"hist\":\{{hist}}}"
+  IO.println s!"SUMMARY \{\"cases\":{s.cases},\"cycles\":{s.cycles},\"ops\":{s.ops},\"diffs\":{s.diffs},\"propfails\":{s.propfails},\"async_compared\":{s.asyncCmp},\"pre_pins_compared\":{s.preCmp},\"post_pins_compared\":{s.postCmp},\"read_after_write_collisions\":{s.rawCollisions},\"write_write_collisions\":{s.wwCollisions},\"undefined_port_inputs\":{s.undefInputs},\"out_of_range_accesses\":{s.outOfRange},\"spec_skipped_cases\":{s.specSkipped},\"post_rejected\":{s.postRejected},\"hazard_cases\":{s.hazardCases},\"reset_cycle_write_divergences\":{s.resetCycleDivergences},\"hist\":\{{hist}}}"
